@@ -7,18 +7,36 @@ M: Uniq.tla: every bag of <= 3 (thorough 4) records over 2 sequences x category 
    count 1, demerge is the inverse, dereplication by parts, order independence, the implementation-shaped
    chunk -> sub-chunk -> fold pipeline computes the definition for every permutation and chunk count);
    exports the required output set of each (bag, options).
+   Weighted configurations (UniqW_*.cfg): records with an integer attribute w and / or maps of an earlier pass
+   (merged_k, merged_k:w), options -m k:w alone or with -m k: per requested descriptor the map of an output record
+   is the sum of the contributions of its class (total = sum of w, per value, additive over any split, the two
+   descriptors independent, -m k:w with w = count is -m k, second pass over dereplicated parts).
    UniqPipe.tla: the goroutine structure (distribute -> chunk files -> recursive sub-chunking with a growing
    WaitGroup -> merge): exactly-once, complete classes, termination, files read only after being closed.
 R: every exported case through the real obichunk.IUniqueSequence (permutations x {memory, disk} x workers x
-   chunk counts x batch sizes), through MakeDemergeWorker, and through the real binaries obiuniq / obidemerge.
+   chunk counts x batch sizes), through MakeDemergeWorker, and through the real binaries obiuniq / obidemerge
+   (`-m k`, `-m k:w`, `-m k -m k:w`, `-m k:w -m k`); two-pass runs (each part of the bag dereplicated, then the
+   real output records dereplicated together) on library objects and on files.
 T: random data sets of ~10^3 records through the library and the binaries, validated by UniqTrace.tla.
 """
 import json
 import os
 import vlib
 
-QUICK_CFGS = ["Uniq_quick.cfg", "Uniq_quick2.cfg"]
-THOROUGH_CFGS = ["Uniq_thorough.cfg", "Uniq_thorough2.cfg", "Uniq_thorough4.cfg", "Uniq_laws.cfg"]
+QUICK_CFGS = ["Uniq_quick.cfg", "Uniq_quick2.cfg", "UniqW_quick.cfg", "UniqW_quick2.cfg", "UniqW_laws.cfg"]
+THOROUGH_CFGS = ["Uniq_thorough.cfg", "Uniq_thorough2.cfg", "Uniq_thorough4.cfg", "Uniq_laws.cfg",
+                 "UniqW_quick2.cfg", "UniqW_thorough.cfg", "UniqW_thorough4.cfg", "UniqW_laws.cfg"]
+
+
+def weighted(case):
+    """the case asks for the weighted descriptor -m k:w"""
+    return len(case["opt"]) > 3 and case["opt"][3] == 1
+
+
+def wshape_of(case):
+    """scenario class of a weighted case (coverage only): which of its records already carry a merged_k:w map"""
+    kinds = sorted(set(("wmap" if r[7] == "map" else "raw") for r in case["in"]))
+    return "+".join(kinds) if kinds else "empty"
 
 
 def run_replay(ctx, name, cases, level, runs, procs=8, par=4, extra=(), timeout=2400):
@@ -67,6 +85,7 @@ def main(ctx):
             tr = ctx.path("trace.ndjson")
             ctx.harness(["record", "C06", "--out", tr, "--n", 1, "--opt", "jobseed=%d" % case["seed"],
                          "--opt", "jobbin=%d" % (1 if case.get("level") == "bin" else 0),
+                         "--opt", "jobpass2=%d" % (1 if case.get("op") == "pass2" else 0),
                          "--opt", "bindir=" + os.path.join(ctx.scratch, "bin"), "--opt", "distbatch=%d" % case.get("distbatch", 7)], timeout=900)
             events, rejects = ctx.trace_validate("UniqTrace", "UniqTrace.cfg", tr)
             for r in rejects:
@@ -113,8 +132,8 @@ def main(ctx):
         # a seeded sample, every shape class x option set represented
         by = {}
         for c in allcases:
-            by.setdefault((shape_of(c), tuple(c["opt"]), len(c["in"])), []).append(c)
-        lib_cases = [c for k in sorted(by) for c in vlib.sample(ctx.rng, by[k], 30)]
+            by.setdefault((shape_of(c), wshape_of(c) if weighted(c) else "", tuple(c["opt"]), len(c["in"])), []).append(c)
+        lib_cases = [c for k in sorted(by) for c in vlib.sample(ctx.rng, by[k], 30 if not k[1] else 12)]
         runs, diskevery = 6, 6
     ctx.rng.shuffle(lib_cases)
     summ = run_replay(ctx, "lib", lib_cases, "lib", runs, procs=8, par=4, extra=["diskevery=%d" % diskevery])
@@ -129,17 +148,44 @@ def main(ctx):
     run_replay(ctx, "bin", bin_cases, "bin", 2 if thorough else 1, procs=1, par=16, extra=["inprocess=1"])
     law_cases = vlib.sample(ctx.rng, [c for c in multi if c["opt"][1] == 1], 600 if thorough else 60)
     run_replay(ctx, "law", law_cases, "law", 1, procs=1, par=16, extra=["inprocess=1"])
+    # the weighted descriptor: every (shape class, option set) through the binaries, and the two-pass runs
+    wcases = [c for c in allcases if weighted(c)]
+    ctx.expect_vacuity("exported cases with the weighted descriptor", len(wcases))
+    for need in ("raw", "wmap", "raw+wmap"):
+        ctx.expect_vacuity("weighted model bags of shape " + need, sum(1 for c in wcases if wshape_of(c) == need))
+    wmulti = [c for c in wcases if len(c["in"]) >= 2]
+    wby = {}
+    for c in wmulti:
+        wby.setdefault((wshape_of(c), tuple(c["opt"])), []).append(c)
+    wbin_cases = [c for k in sorted(wby) for c in vlib.sample(ctx.rng, wby[k], 40 if thorough else 6)]
+    run_replay(ctx, "wbin", wbin_cases, "bin", 2 if thorough else 1, procs=1, par=16, extra=["inprocess=1"])
+    p2_cases = vlib.sample(ctx.rng, wmulti, 20000 if thorough else 500) + vlib.sample(ctx.rng, [c for c in multi if not weighted(c)], 4000 if thorough else 100)
+    run_replay(ctx, "pass2", p2_cases, "pass2", 2, procs=8, par=4, extra=["diskevery=%d" % (16 if thorough else 8)])
+    p2b_cases = vlib.sample(ctx.rng, wmulti, 1200 if thorough else 90)
+    run_replay(ctx, "pass2bin", p2b_cases, "pass2bin", 1, procs=1, par=16, extra=["inprocess=1"])
+    ctx.extra["weighted_cases"] = {"exported": len(wcases), "binary": len(wbin_cases), "two_pass_library": len(p2_cases), "two_pass_binary": len(p2b_cases)}
     need = ["lib/mem/cat0/m1/ns0", "lib/disk/cat0/m1/ns0", "lib/mem/cat1/m1/ns1", "lib/disk/cat1/m1/ns1", "lib/mem/cat2/m1/ns0",
             "lib/disk/cat2/m1/ns1", "lib/mem/cat1/m0/ns0", "demerge/-/cat1/m1/ns0", "law/demerge", "law/uniq-demerge-uniq"]
     for n in need:
         vac.expect("class " + n, ctx.classes.get(n, 0))
+    def classes_like(pred):
+        return sum(v for k, v in ctx.classes.items() if pred(k))
+    vac.expect("library runs with -m k:w alone", classes_like(lambda k: k.startswith("lib/") and "/m0/" in k and k.endswith("/w1")))
+    for o in (0, 1, 2):
+        vac.expect("library runs with both descriptors, order %d" % o, classes_like(lambda k: k.startswith("lib/") and k.endswith("/w1/order%d" % o)))
+    vac.expect("library runs with -m k:w on disk", classes_like(lambda k: k.startswith("lib/disk/") and "/w1" in k))
+    vac.expect("binary runs with -m k:w alone", classes_like(lambda k: k.startswith("bin/") and "/m0/" in k and k.endswith("/w1")))
+    vac.expect("binary runs with -m k -m k:w", classes_like(lambda k: k.startswith("bin/") and k.endswith("/w1/order0")))
+    vac.expect("binary runs with -m k:w -m k", classes_like(lambda k: k.startswith("bin/") and k.endswith("/w1/order1")))
+    vac.expect("two-pass library runs with -m k:w", classes_like(lambda k: k.startswith("pass2/") and "/w1" in k))
+    vac.expect("two-pass binary runs with -m k:w", classes_like(lambda k: k.startswith("pass2bin/") and "/w1" in k))
     vac.expect("binary runs on disk", sum(v for k, v in ctx.classes.items() if k.startswith("bin/disk") or k.startswith("law/disk")))
     vac.expect("binary runs on disk with long sequences", sum(v for k, v in ctx.classes.items() if k.endswith("/bigseq")))
     vac.expect("binary runs in memory", sum(v for k, v in ctx.classes.items() if k.startswith("bin/mem") or k.startswith("law/mem")))
 
     # T ---------------------------------------------------------------------------------------
     trace = ctx.path("trace.ndjson")
-    n = 150 if thorough else 21
+    n = 200 if thorough else 28
     p = ctx.harness(["record", "C06", "--out", trace, "--n", n, "--opt", "nbin=%d" % (n // 3), "--opt", "size=1000",
                      "--opt", "bindir=" + os.path.join(ctx.scratch, "bin"), "--opt", "distbatch=%d" % [7, 50, 2000][ctx.seed % 3]],
                     timeout=1500, check=False)
@@ -156,14 +202,16 @@ def main(ctx):
     for r in rejects:
         ev = events[r["l"] - 1]
         ctx.violation("C06.trace.%s.%s" % (ev["level"], r["why"]), "%s/%s" % (ev["op"], ev["mode"]),
-                      "%s %s run (workers=%d chunks=%d ncat=%d merge=%d ns=%d, %d records, seed %d) rejected by UniqTrace: %s %s" %
-                      (ev["level"], ev["op"], ev["workers"], ev["chunks"], ev["ncat"], ev["merge"], ev["ns"], len(ev["recs"]),
+                      "%s %s run (workers=%d chunks=%d ncat=%d merge=%d wmerge=%d ns=%d, %d records, seed %d) rejected by UniqTrace: %s %s" %
+                      (ev["level"], ev["op"], ev["workers"], ev["chunks"], ev["ncat"], ev["merge"], ev["wmerge"], ev["ns"], len(ev["recs"]),
                        ev["seed"], r["why"], ev.get("badwhy", "")), ev)
     ops = {}
     for ev in events:
         ops[ev["op"] + "/" + ev["level"]] = ops.get(ev["op"] + "/" + ev["level"], 0) + 1
-    for needop in ("uniq/lib", "uniq/bin", "demerge/bin", "law/bin"):
+    for needop in ("uniq/lib", "uniq/bin", "demerge/bin", "law/bin", "pass2/lib", "pass2/bin"):
         vac.expect("trace events " + needop, ops.get(needop, 0))
+    vac.expect("trace events with -m k:w alone", sum(1 for ev in events if ev["wmerge"] == 1 and ev["merge"] == 0))
+    vac.expect("trace events with both descriptors", sum(1 for ev in events if ev["wmerge"] == 1 and ev["merge"] == 1))
     ctx.extra["trace_events"] = ops
     ctx.extra["trace_records"] = sum(len(ev["recs"]) for ev in events)
     e0 = events[0]
@@ -172,6 +220,8 @@ def main(ctx):
         "nucleotide strings are abstracted to identifiers, category / merge values to small strings; the harness only encodes "
         "abstract records as real ones and decodes real output records (sequence, c1..cn, count, merged_k)",
         "records of the model are consistent: an already merged record has count = total of its merged_k map",
+        "weighted descriptor: the attribute w is an integer >= 0; in merged_k:w a value of total weight 0 and an absent value "
+        "are the same thing (the property speaks of the summed weight per value); obidemerge on merged_k:w is not asserted",
         "attributes other than count, the category attributes and k / merged_k are not asserted",
         "the on-disk race (chunk file read before its writer closed it) is a scheduling property: it is exercised with long "
         "sequences through the binaries, a miss is possible, a false alarm is not",
